@@ -920,14 +920,13 @@ pub fn run(prop: &'static str, ctx: &mut Ctx) {
     let mut bigs: Vec<(GCase, Key, Key)> = vec![];
     big_family(&sizes, |g, r, t| bigs.push((g.clone(), r, t)));
     // deep chains (recursion depth of the recursive traversals, thresholds in the thousands): a path with one skip
-    // edge at the start and one back edge near the end; plain cells search 0 -> n-1, transposed ones n-1 -> 0
+    // edge at the start, closed into a ring; plain cells search 0 -> n-1, transposed ones n-1 -> 0
     // (the priority-order oracle is quadratic in the chain length: C06 keeps the short chain only)
     let deep_sizes: Vec<usize> = if prop == "C06" { vec![5000] } else { tier.pick(vec![5000, 20_000, 70_000], vec![5000, 9000, 20_000, 40_000, 70_000, 140_000]) };
     for &n in &deep_sizes {
         let mut e: Vec<Tri> = (0..n - 1).map(|i| (i as Key, (i + 1) as Key, 7 + (i % 3) as EV)).collect();
         e.push((0, 2, 1));
-        e.push(((n - 1) as Key, (n - 5) as Key, 2));
-        // closed into a ring: the cycle through any node is n edges long
+        // closed into a ring: the only cycle through the far end is n edges long
         e.push(((n - 1) as Key, 0, 4));
         bigs.push((GCase { n, prio: (0..n).map(|i| ((i * 7) % 5) as i32).collect(), edges: e }, 0, (n - 1) as Key));
     }
@@ -970,7 +969,9 @@ pub fn run(prop: &'static str, ctx: &mut Ctx) {
                             continue;
                         }
                         let (root, target) = if cell.transposed() { (*t, *r) } else { (*r, *t) };
-                        let cell = with_target(&cell, Some(target));
+                        // (complete traversals, i.e. no target, for the closure properties on the very large graphs)
+                        let complete = g.n > 4000 && matches!(prop, "C07" | "C08") && matches!(&cell, Cell::Search(c) if c.term == Term::Search);
+                        let cell = with_target(&cell, if complete { None } else { Some(target) });
                         // filters: nothing rejected / every third edge rejected
                         let view = g.view(<$F>::DIRECTED, cell.transposed());
                         let mut rej = BTreeSet::new();
